@@ -837,6 +837,11 @@ Definition adjust_moisture_hist (mws : vec) (R P : strm) (opsR opsP : list lop) 
            (mwc : Q) (strict : option bool) : option mres :=
   if negb by_mass || (view_okb (lrun linit opsR) && view_okb (lrun linit opsP))
   then Some (adjust_moisture mws R P w mc by_mass mwc strict) else None.
+(* mix_and_split_with_moisture_content on outlets with such a history (mix_from / split_to write the flow vector in place) *)
+Definition mix_and_split_with_moisture_hist (n : nat) (mws : vec) (ins : list vec) (split : vec) (opsR opsP : list lop)
+           (w : nat) (mc : Q) (by_mass : bool) (mwc : Q) (strict : option bool) : option mres :=
+  if negb by_mass || (view_okb (lrun linit opsR) && view_okb (lrun linit opsP))
+  then Some (mix_and_split_with_moisture n mws ins split w mc by_mass mwc strict) else None.
 Definition omres_eqb (m : option mres) (rl ro pl po : vec) (e : option err) : bool :=
   match m with Some m' => mres_eqb m' rl ro pl po e | None => false end.
 
